@@ -633,8 +633,16 @@ func (w *c11World) buildItems() {
 		ks, ws, basic := reg(id, w.mkLca(l))
 		l.Key, l.Wsize, l.Basic = ks, ws, basic
 	}
-	// abstract key = "k:" + first id (sorted) with that real key; rank = DB order of the real key
+	// abstract key = "k:" + the genuine item with that real key if there is one, else the
+	// first id (sorted); rank = DB order of the real key
 	sort.Slice(all, func(i, j int) bool { return all[i].id < all[j].id })
+	for _, k := range all {
+		if strings.HasSuffix(k.id, "genuine") {
+			if _, ok := w.keyName[k.key]; !ok {
+				w.keyName[k.key] = "k:" + k.id
+			}
+		}
+	}
 	for _, k := range all {
 		if _, ok := w.keyName[k.key]; !ok {
 			w.keyName[k.key] = "k:" + k.id
